@@ -20,11 +20,14 @@ def models(quick):
     if quick:
         return [ModelRun("C10_sd", letters=[0, 1], maxlen=2, maxn=3, ks=[1], engines=["symdel"], modes=["lev", "hamming"], invariants=inv),
                 ModelRun("C10_sd2", letters=[0, 1], maxlen=1, maxn=3, maxn2=2, ks=[1], engines=["symdel", "hash"], invariants=inv),
+                # a second collection longer than the first: matrices wider than high
+                ModelRun("C10_wide", letters=[0, 1], maxlen=1, maxn=2, maxn2=4, ks=[1], engines=["symdel", "hash"], invariants=inv),
                 ModelRun("C10_hk", letters=[0, 1], maxlen=2, maxn=2, ks=[1], engines=["hash", "kd"], modes=["lev", "hamming"], comps=[1], invariants=inv),
                 ModelRun("C10_cd", letters=[0, 1], maxlen=2, maxn=2, ks=[1, 2], engines=["symdel", "hash", "kd"], modes=["custom"], cdfams=["hamlen", "levq"],
                          maxcs=[nc.INF], invariants=inv)]
     return [ModelRun("C10_sd", letters=[0, 1], maxlen=2, maxn=3, ks=[1, 2], engines=["symdel", "hash", "kd"], modes=["lev", "hamming"], invariants=inv),
             ModelRun("C10_sd2", letters=[0, 1], maxlen=2, maxn=2, maxn2=2, ks=[1, 2], engines=["symdel", "hash"], invariants=inv),
+            ModelRun("C10_wide", letters=[0, 1], maxlen=1, maxn=2, maxn2=5, ks=[1, 2], engines=["symdel", "hash"], invariants=inv),
             ModelRun("C10_cd", letters=[0, 1], maxlen=2, maxn=3, ks=[1], engines=["symdel", "hash", "kd"], modes=["custom"], cdfams=["hamlen", "lev2", "levq"], maxcs=[4, nc.INF], invariants=inv)]
 
 
@@ -164,6 +167,8 @@ def run(ctx):
             seqs = nc.repertoire(ctx.rng, ctx.rng.randint(10, 30), maxmut=k + 1, maxlen=12)
         if eng == "symdel2":
             q = [ctx.rng.choice(seqs) for _ in range(4)] + [nc.mutate(ctx.rng, ctx.rng.choice(seqs), 1) for _ in range(3)]
+            if r % 8 == 3:
+                q = q + [ctx.rng.choice(seqs) for _ in range(len(seqs))]          # more queries than references
             inp = nc.make_inp("symdel", mode, k, seqs, seqs2=q)
         else:
             inp = nc.make_inp(eng, mode, k, seqs)
